@@ -38,7 +38,7 @@ PROP = dict(
     design_ref="DESIGN.md §6 C28",
     level_text="Theorem over all values of the nested built-in types (any depth and size): the prelude's ToString code, as modelled, produces exactly "
                "the documented text (`render`), incl. array_to_string_helper = ', '-separated join, `..` = concatenation of the two texts, print/println, and any sequence of rendering "
-               "statements over the same values prints statement by statement the documented text of its operands (rendering is pure). "
+               "statements over the same values prints statement by statement the documented text of its operands (the model is store-free, so this is purity at the model level; that the real heap of shared string objects behaves the same is checked by the purity stream of the correspondence, not proved). "
                "The model is tied to /repo on every run by rendering random nested values on the real VM through print, println, str and `..`.",
     level_note="The step from prelude.abra to the model is by correspondence. The empty array renders as `[  ]`; the spec follows the code there.",
     technique="Lean 4 theorem by mutual structural induction over nested values + differential correspondence against the real prelude on the real VM + documented format re-stated in Rust",
